@@ -27,7 +27,7 @@ ANCHORS = [
     "acnportal.contrib.acnsim.network.stochastic_network:StochasticNetwork.available_evses",
 ]
 REQUIRED = ["calls:plugin", "calls:unplug", "calls:post_update", "walks", "placed_on_free_station", "enqueued", "admitted_from_queue",
-            "departed_while_waiting", "early_departures", "late_unplug_of_early_leaver", "runs_completed", "replays_compared", "energy_ledgers_checked",
+            "departed_while_waiting", "early_departures", "late_unplug_of_early_leaver", "runs_completed", "replays_compared", "xproc_runs_compared", "energy_ledgers_checked",
             "regime:early-on", "regime:early-off", "regime:more-sessions-than-stations", "regime:simultaneous-departure-connected-and-waiting",
             "distinct_station_choices"]
 BUDGET_S = {"quick": 240, "thorough": 3000}
@@ -71,6 +71,18 @@ def cases(seed, tier):
     rng = random.Random(f"C19:{seed}")
     nh, per = (260, 8) if tier == "quick" else (6000, 30)
     out = []
+    # reproducibility across interpreter launches: the same histories and seeds in fresh processes with different hash seeds
+    for _ in range(2 if tier == "quick" else 24):
+        hs = []
+        for _ in range(25):
+            h = gen_history(rng)
+            # several free stations while some are occupied is where the choice among free stations matters
+            if len(h["network"]["stations"]) < 3:
+                ev = h["network"]["stations"][0]["evse"]
+                h["network"]["stations"] = [{"id": f"s{i}", "evse": ev, "voltage": 208, "phase": 0} for i in range(rng.randint(4, 8))]
+                h["network"]["constraints"] = []
+            hs.append({"desc": h, "rseed": rng.randrange(1 << 30)})
+        out.append({"xproc": hs})
     for i in range(nh):
         d = gen_history(rng)
         for j in range(per):
@@ -326,7 +338,62 @@ def monitored_run(d, rseed, obs, judge=True):
     return sim, sh, log, exc
 
 
+def _xproc(case, obs):
+    import json
+    import os
+    import subprocess
+    import tempfile
+    from vlib import env
+    fd, path = tempfile.mkstemp(prefix="c19x_", suffix=".json", dir=os.path.join(env.VERIF, ".work"))
+    with os.fdopen(fd, "w") as f:
+        json.dump(case["xproc"], f)
+    outs = {}
+    try:
+        for hs in ("1", "2", "31337"):
+            e = dict(os.environ, PYTHONHASHSEED=hs, PYTHONPATH=env.VERIF + os.pathsep + env.REPO, PYTHONDONTWRITEBYTECODE="1")
+            r = subprocess.run([env.PYTHON, "-m", "props.c19", "child", path], cwd=env.VERIF, env=e, capture_output=True, text=True, timeout=600)
+            if r.returncode != 0:
+                obs.ev("xproc_child_failed")
+                obs.violate("harness:xproc_child", r.stderr[-400:]) if False else None
+                return
+            outs[hs] = json.loads(r.stdout.strip().splitlines()[-1])
+    finally:
+        try:
+            os.remove(path)
+        except OSError:
+            pass
+    obs.evals = 0
+    ref = outs["1"]
+    for hs, logs in outs.items():
+        for i, (a, b) in enumerate(zip(ref, logs)):
+            obs.evals += 1
+            obs.ev("xproc_runs_compared")
+            if a != b:
+                j = next((j for j, (x, y) in enumerate(zip(a, b)) if x != y), min(len(a), len(b)))
+                obs.violate("not_reproducible_across_processes", f"history {i}, random.seed({case['xproc'][i]['rseed']}): placement log differs between "
+                            f"interpreter launches (PYTHONHASHSEED 1 vs {hs}) at entry {j}: {a[j:j + 2]} vs {b[j:j + 2]}",
+                            scenario=case["xproc"][i]["desc"], rseed=case["xproc"][i]["rseed"])
+                return
+    obs.nontrivial()
+    obs.sample = {"kind": "xproc", "histories": len(ref), "hash_seeds": list(outs), "first_log": ref[0][:8]}
+
+
+def _child(path):
+    import json
+    from vlib import env
+    env.setup_repo_path()
+    from vlib.result import Obs
+    logs = []
+    for item in json.load(open(path)):
+        o = Obs()
+        sim, sh, log, exc = monitored_run(item["desc"], item["rseed"], o, judge=False)
+        logs.append([list(x) for x in log] + [[repr(exc)]])
+    print(json.dumps(logs))
+
+
 def run_case(case, obs):
+    if "xproc" in case:
+        return _xproc(case, obs)
     d, rseed = case["desc"], case["rseed"]
     obs.evals = 0
     wit = dict(scenario=d, rseed=rseed)
@@ -393,3 +460,9 @@ def run_case(case, obs):
 
 def classify(v):
     return None
+
+
+if __name__ == "__main__":
+    import sys
+    if len(sys.argv) >= 3 and sys.argv[1] == "child":
+        _child(sys.argv[2])
